@@ -15,6 +15,7 @@ from typing import TYPE_CHECKING, Iterator, Literal, overload
 import numpy as np
 
 from optyx.core.expressions import Expression, Variable, BinaryOp, Constant
+from optyx.core.vectors import _as_python_scalar
 from optyx.core.vectors import (
     VectorVariable,
     VectorExpression,
@@ -156,6 +157,9 @@ class MatrixExpression:
     def __rsub__(self, other: float | int | NDArray) -> MatrixExpression:
         """Right subtraction: other - self."""
         rows, cols = self.shape
+        other = _as_python_scalar(other)
+        if isinstance(other, (list, tuple)):
+            other = np.asarray(other)
         if isinstance(other, (int, float)):
             const = Constant(other)
             result_exprs = [
@@ -263,9 +267,10 @@ class MatrixExpression:
 def _matrix_rtruediv(matrix, elements, other) -> MatrixExpression:
     """other / matrix: a scalar is broadcast, an array is divided element by element."""
     rows, cols = matrix.shape
+    other = _as_python_scalar(other)
     if isinstance(other, (list, tuple)):
         other = np.asarray(other)
-    if isinstance(other, np.ndarray) and other.ndim > 0:
+    if isinstance(other, np.ndarray):
         if other.shape != (rows, cols):
             raise DimensionMismatchError(
                 operation="division",
@@ -312,6 +317,7 @@ def _matrix_binary_op(
         left_exprs = left._expressions
 
     # Handle right operand
+    right = _as_python_scalar(right)
     if isinstance(right, (int, float)):
         # Scalar broadcast to all elements
         const = Constant(right)
@@ -398,6 +404,7 @@ def _matrix_constraint(
 
     constraints: list[Constraint] = []
 
+    right = _as_python_scalar(right)
     if isinstance(right, (int, float)):
         # Scalar broadcast to all elements
         for i in range(rows):
@@ -952,6 +959,9 @@ class MatrixVariable:
     def __rsub__(self, other: float | int | NDArray) -> MatrixExpression:
         """Right subtraction: scalar - X or array - X."""
         rows, cols = self.shape
+        other = _as_python_scalar(other)
+        if isinstance(other, (list, tuple)):
+            other = np.asarray(other)
         if isinstance(other, (int, float)):
             const = Constant(other)
             result_exprs = [
